@@ -2,6 +2,7 @@ package checks
 
 import (
 	"go/ast"
+	"go/constant"
 	"go/token"
 	"go/types"
 
@@ -25,6 +26,7 @@ func init() {
 		Mutant{"crc-check-weakened", F, "if actualCRC != crc {", "if actualCRC != crc && dec.maxSize > 0 {", "crc-before-decode"},
 		Mutant{"crc-over-tail", F, "actualCRC := crc32.Checksum(twmBytes, crc32c)", "actualCRC := crc32.Checksum(twmBytes[1:], crc32c)", "crc-before-decode"},
 		Mutant{"untyped-base64-error", F, "return nil, nil, DataCorruptionError{fmt.Errorf(\"failed to decode base64: %w\", err)}", "return nil, nil, fmt.Errorf(\"failed to decode base64: %w\", err)", "corruption-typed tm2/pkg/bft/wal.(*WALReader).ReadMessage returns a value built by fmt.Errorf"},
+		Mutant{"meta-error-untyped", F, "return nil, nil, DataCorruptionError{fmt.Errorf(\"failed to decode meta line: %w\", err)}", "return nil, nil, err", "corruption-typed tm2/pkg/bft/wal.(*WALReader).ReadMessage returns error of tm2/pkg/amino.UnmarshalJSON"},
 		Mutant{"reader-size-nonstrict", F, "if dec.maxSize < int64(len(twmBytes)) {", "if dec.maxSize <= int64(len(twmBytes)) {", "size-bound"},
 		Mutant{"replay-smaller-limit", "tm2/pkg/bft/consensus/replay.go", "dec := walm.NewWALReader(gr, maxMsgSize)", "dec := walm.NewWALReader(gr, maxMsgSize/2)", "size-bound"},
 		Mutant{"found-on-later-height", F, "} else if meta.Height == height { // found", "} else if meta.Height == height+1 { // found", "search-found"},
@@ -55,17 +57,43 @@ func c38(c *engine.Ctx) {
 	wg, rg := wr.Graph(), rd.Graph()
 
 	// ---------- writer ----------
-	encS, encObjs := niBoundCall(wr, "encoding/base64.(*Encoding).EncodeToString")
+	// the encoder: s := codec.EncodeToString(line) or codec.Encode(dst, line)
+	var encS *engine.Site
 	var L, B, S types.Object
-	if encS == nil {
-		c.Check("writer-format", wr.Name+" one base64 EncodeToString", wr.Pos(), false, "expected exactly one EncodeToString call bound to a variable")
+	encs := wr.CallsTo("encoding/base64.(*Encoding).EncodeToString", "encoding/base64.(*Encoding).Encode", "encoding/base64.(*Encoding).AppendEncode")
+	if len(encs) != 1 {
+		c.Check("writer-format", wr.Name+" one base64 encode call", wr.Pos(), false, "expected exactly one EncodeToString/Encode call")
 	} else {
-		if len(encObjs) == 1 {
-			S = encObjs[0]
+		encS = encs[0]
+		var src ast.Expr
+		switch encS.CalleeName() {
+		case "encoding/base64.(*Encoding).EncodeToString":
+			if objs := niAssignedFromCall(wr, encS); len(objs) == 1 {
+				S = objs[0]
+			}
+			if len(encS.Call.Args) == 1 {
+				src = encS.Call.Args[0]
+			}
+		case "encoding/base64.(*Encoding).Encode":
+			if len(encS.Call.Args) == 2 {
+				d := ast.Unparen(encS.Call.Args[0])
+				if se, ok := d.(*ast.SliceExpr); ok {
+					d = se.X
+				}
+				S = engine.ObjOf(wi, d)
+				src = encS.Call.Args[1]
+			}
+		case "encoding/base64.(*Encoding).AppendEncode":
+			if objs := niAssignedFromCall(wr, encS); len(objs) == 1 {
+				S = objs[0]
+			}
+			if len(encS.Call.Args) == 2 {
+				src = encS.Call.Args[1]
+			}
 		}
 		c.Check("codec-agree", wr.Name+" base64 codec", encS.Pos(), niIsObj(wi, niRecvExpr(encS.Call), codec), "writer must encode with the package codec variable base64stdnp")
-		if len(encS.Call.Args) == 1 {
-			L = engine.ObjOf(wi, encS.Call.Args[0])
+		if src != nil {
+			L = engine.ObjOf(wi, src)
 		}
 	}
 	puts := wr.CallsTo("encoding/binary.(bigEndian).PutUint32", "encoding/binary.(littleEndian).PutUint32")
@@ -129,13 +157,23 @@ func c38(c *engine.Ctx) {
 			nl := niHasNewlineConst(wi, w.Call.Args[0])
 			engine.InspectBody(wr, func(n ast.Node) {
 				as, ok := n.(*ast.AssignStmt)
-				if !ok || len(as.Lhs) != 1 || len(as.Rhs) != 1 || engine.ObjOf(wi, as.Lhs[0]) != S {
+				if !ok || len(as.Lhs) != 1 || len(as.Rhs) != 1 {
 					return
 				}
-				if !(as.Tok == token.ADD_ASSIGN && niIsNewline(wi, as.Rhs[0])) && !(as.Tok == token.ASSIGN && niIsSuffixNewline(wi, as.Rhs[0], S)) {
-					return
+				if ix, isIx := ast.Unparen(as.Lhs[0]).(*ast.IndexExpr); isIx {
+					// buf[k] = '\n' on the byte buffer that is written
+					if engine.ObjOf(wi, ix.X) != S || as.Tok != token.ASSIGN || !niIsNewline(wi, as.Rhs[0]) {
+						return
+					}
+				} else {
+					if engine.ObjOf(wi, as.Lhs[0]) != S {
+						return
+					}
+					if !(as.Tok == token.ADD_ASSIGN && niIsNewline(wi, as.Rhs[0])) && !(as.Tok == token.ASSIGN && niIsSuffixNewline(wi, as.Rhs[0], S)) {
+						return
+					}
 				}
-				if st := wr.SiteOf(as); st != nil && wg.Dominates(st, w) && wg.Dominates(encS, st) {
+				if st := wr.SiteOf(as); st != nil && wg.Dominates(st, w) {
 					nl = true
 				}
 			})
@@ -238,7 +276,11 @@ func c38(c *engine.Ctx) {
 
 func niIsNewline(info *types.Info, e ast.Expr) bool {
 	tv, ok := info.Types[e]
-	return ok && tv.Value != nil && tv.Value.ExactString() == `"\n"`
+	if !ok || tv.Value == nil {
+		return false
+	}
+	// "\n" as a string constant, or '\n' as a rune/byte constant
+	return tv.Value.ExactString() == `"\n"` || (tv.Value.Kind() == constant.Int && tv.Value.ExactString() == "10")
 }
 
 func niHasNewlineConst(info *types.Info, e ast.Node) bool {
@@ -456,72 +498,83 @@ func niReachingDefs(f *engine.Fn, obj types.Object, at *engine.Site) []niDef {
 func c38Typed(c *engine.Ctx, p *engine.Prog, rd *engine.Fn) {
 	const W = "tm2/pkg/bft/wal."
 	const rule = "corruption-typed"
-	info := rd.Info()
-	g := rd.Graph()
 	dce := p.Named(W + "DataCorruptionError")
 	if dce == nil {
 		c.Undecided(rule, W+"DataCorruptionError", "type not found")
 		return
 	}
-	n := 0
-	for _, r := range niReturns(rd) {
-		rs := r.Node.(*ast.ReturnStmt)
-		if !niLastResultNonNil(rs) {
-			continue
+	n, typed := 0, 0
+	// classify walks the error returns of fn (rd itself, or a private helper
+	// whose error rd passes on); keys always name rd and the originating callee.
+	var classify func(fn *engine.Fn, depth int, busy map[*engine.Fn]bool)
+	classify = func(fn *engine.Fn, depth int, busy map[*engine.Fn]bool) {
+		if busy[fn] {
+			return
 		}
-		e := ast.Unparen(rs.Results[len(rs.Results)-1])
-		if t := info.TypeOf(e); t != nil && types.Identical(t, dce) {
-			n++
-			continue // counted below as one obligation per literal
-		}
-		id, isID := e.(*ast.Ident)
-		if !isID {
-			n++
-			what := "an unclassified expression"
-			if call, ok := e.(*ast.CallExpr); ok && niCallee(info, call) != "" {
-				what = "a value built by " + niCallee(info, call)
+		busy[fn] = true
+		info := fn.Info()
+		g := fn.Graph()
+		for _, r := range niReturns(fn) {
+			rs := r.Node.(*ast.ReturnStmt)
+			if !niLastResultNonNil(rs) {
+				continue
 			}
-			c.Check(rule, rd.Name+" returns "+what, r.Pos(), false, "error value `"+niShort(e)+"` is neither a DataCorruptionError nor a classified variable")
-			continue
-		}
-		obj := info.ObjectOf(id)
-		for _, d := range niReachingDefs(rd, obj, r) {
-			n++
-			src := niCallee(info, d.Call)
-			if src == "" {
-				src = "a non-call expression"
+			e := ast.Unparen(rs.Results[len(rs.Results)-1])
+			if t := info.TypeOf(e); t != nil && types.Identical(t, dce) {
+				n++
+				typed++
+				continue
 			}
-			key := rd.Name + " returns error of " + src
-			// nil on this path?
-			isNilHere := false
-			for _, ft := range niFacts(g, r) {
-				cmp, ok := niAsCmp(ft)
-				if ok && cmp.Op == token.EQL && engine.ObjOf(info, cmp.X) == obj && isNil(cmp.Y) && g.Dominates(d.Site, &engine.Site{Block: ft.Gate.Block, Idx: len(ft.Gate.Block.Nodes) - 1, Ord: 1 << 30, Node: ft.Gate.Cond}) {
-					isNilHere = true
+			id, isID := e.(*ast.Ident)
+			if !isID {
+				n++
+				what := "an unclassified expression"
+				if call, ok := e.(*ast.CallExpr); ok && niCallee(info, call) != "" {
+					what = "a value built by " + niCallee(info, call)
+				}
+				c.Check(rule, rd.Name+" returns "+what, r.Pos(), false, "error value `"+niShort(e)+"` is neither a DataCorruptionError nor a classified variable")
+				continue
+			}
+			obj := info.ObjectOf(id)
+			for _, d := range niReachingDefs(fn, obj, r) {
+				src := niCallee(info, d.Call)
+				if src == "" {
+					src = "a non-call expression"
+				}
+				key := rd.Name + " returns error of " + src
+				isNilHere := false
+				for _, ft := range niFacts(g, r) {
+					cmp, ok := niAsCmp(ft)
+					if ok && cmp.Op == token.EQL && engine.ObjOf(info, cmp.X) == obj && isNil(cmp.Y) && g.Dominates(d.Site, &engine.Site{Block: ft.Gate.Block, Idx: len(ft.Gate.Block.Nodes) - 1, Ord: 1 << 30, Node: ft.Gate.Cond}) {
+						isNilHere = true
+					}
+				}
+				// error produced by a private helper of the package: judge the helper's own error returns
+				var helper *engine.Fn
+				if d.Call != nil {
+					if fo, _ := engine.ObjOf(info, d.Call.Fun).(*types.Func); fo != nil && !fo.Exported() {
+						helper = p.FnOf(fo)
+					}
+				}
+				switch {
+				case isNilHere:
+					n++
+					c.Check(rule, key, r.Pos(), true, "value is nil on this path")
+				case src == W+"(*WALReader).readline":
+					n++
+					c.Check(rule, key, r.Pos(), true, "I/O error or EOF of the line reader itself (no line was read)")
+				case helper != nil && depth > 0 && helper.Pkg == rd.Pkg:
+					classify(helper, depth-1, busy)
+				default:
+					n++
+					c.Check(rule, key, r.Pos(), false, "a line was read and failed to decode, but the error is returned without the DataCorruptionError wrapper (IsDataCorruptionError is false)")
 				}
 			}
-			switch {
-			case isNilHere:
-				c.Check(rule, key, r.Pos(), true, "value is nil on this path")
-			case src == W+"(*WALReader).readline":
-				c.Check(rule, key, r.Pos(), true, "I/O error or EOF of the line reader itself (no line was read)")
-			default:
-				c.Check(rule, key, r.Pos(), false, "a line was read and failed to decode, but the error is returned without the DataCorruptionError wrapper (IsDataCorruptionError is false)")
-			}
 		}
 	}
-	// one obligation for the typed literals
-	typed := 0
-	for _, r := range niReturns(rd) {
-		rs := r.Node.(*ast.ReturnStmt)
-		if niLastResultNonNil(rs) {
-			if t := info.TypeOf(rs.Results[len(rs.Results)-1]); t != nil && types.Identical(t, dce) {
-				typed++
-			}
-		}
-	}
+	classify(rd, 2, map[*engine.Fn]bool{})
 	c.Check(rule, rd.Name+" typed corruption returns", rd.Pos(), typed >= 6, "DataCorruptionError returns found")
-	c.Floor(rule, n, 9)
+	c.Floor(rule, n, 8)
 }
 
 func niShort(e ast.Expr) string {
